@@ -4,7 +4,8 @@
 (*      (products: exact on all powers of two and on sampled small factors, *)
 (*      additive on sampled pairs, hence exact);                            *)
 (*  (b) Decrypt(Encrypt(v, k), k) = v on N seeded (block, time, address)    *)
-(*      triples, both key tables;                                           *)
+(*      triples, both key tables; twins (same SeedOf, other table) have     *)
+(*      different keys and ciphertexts;                                     *)
 (*  (c) anchor: a packet captured on the air (also quoted in the            *)
 (*      repository's unit test) decrypts under the key schedule to a        *)
 (*      plausible glider and re-encrypts to the same bytes;                 *)
@@ -60,6 +61,30 @@ ASSUME BothTables ==
   /\ \E i \in 1..N : (TimeOf(i)[1] \div 128) % 2 = 0
   /\ \E i \in 1..N : (TimeOf(i)[1] \div 128) % 2 = 1
   /\ MakeKey(W(25257, 128), 1) # MakeKey(W(25257 + 128, 128), 1)
+
+(* (b') twins: same value fed to Obscure, other table, other key; without   *)
+(* the table bit in the mask: same table and the very same key              *)
+TwinMask(i) == (Hash(i, 22)[2] % M16) - ((Hash(i, 22)[2] \div TwinBit) % 2) * TwinBit + (IF i % 3 = 0 THEN 0 ELSE TwinBit)
+ASSUME Twins ==
+  \A i \in 1..N :
+     LET t == TimeOf(i)  a == AddrOf(i)
+         d == IF i % 5 = 0 THEN TwinBit ELSE TwinMask(i)
+         t2 == TwinTime(t, d)  a2 == TwinAddr(a, d)
+     IN /\ IsWord(t2) /\ a2 \in 0..16777215
+        /\ SeedOf(t2, a2) = SeedOf(t, a)
+        /\ IF IsTwinMask(d)
+           THEN /\ <<t2, a2>> # <<t, a>>
+                /\ TableOf(t2) # TableOf(t)
+                /\ MakeKey(t2, a2) # MakeKey(t, a)
+                /\ Encrypt(Block(i), MakeKey(t2, a2)) # Encrypt(Block(i), MakeKey(t, a))
+           ELSE /\ TableOf(t2) = TableOf(t)
+                /\ MakeKey(t2, a2) = MakeKey(t, a)
+ASSUME TwinsBothKinds ==
+  /\ \E i \in 1..N : i % 5 # 0 /\ IsTwinMask(TwinMask(i)) /\ TwinMask(i) # TwinBit
+  /\ \E i \in 1..N : i % 5 # 0 /\ ~IsTwinMask(TwinMask(i))
+ASSUME TwinAnchor ==        \* device A at T and device A ^ 0x200 at T ^ 2^23
+  /\ TwinTime(W(25257, 33970), TwinBit) = W(25257 + 128, 33970)
+  /\ TwinAddr(3732091, TwinBit) = 3732091 + 512
 
 (* (c) ------------------------------------------------------------------- *)
 (* 7bf238 10 860b7eab b2395225 2fd49270 24b21fd9 4e9e1ef4 16f0, received    *)
